@@ -476,6 +476,23 @@ def chk_eq(K, clause, ne=False):
                     eq2 = (not (y != x)) if ne else (y == x)
                     if not (eq and eq2):
                         return f"{K}[{ck}] filled with {data[:n]}: {what_} compare unequal"
+                # a node whose own entries is NaN (ed(nan, ...), a document with "entries": "nan"; outside the wf of the proved
+                # contracts): NaN equals NaN, so two reloads, the copy and the pickle clone are equal
+                doc = a.toJson()
+                if isinstance(doc["data"], dict) and "entries" in doc["data"]:
+                    doc["data"]["entries"] = "nan"
+                elif not isinstance(doc["data"], dict):
+                    doc["data"] = "nan"
+                try:
+                    n1, n2 = hg.Factory.fromJson(doc), hg.Factory.fromJson(doc)
+                    others = [("two reloads of a document with NaN entries", n1, n2), ("NaN entries: reload vs its copy", n1, n1.copy()), ("NaN entries: reload vs its pickle clone", n1, pickle.loads(pickle.dumps(n1)))]
+                except Exception as e:
+                    return f"{K}[{ck}]: reloading / cloning a document with NaN entries raised {e!r}"
+                for what_, x, y in others:
+                    eq = (not (x != y)) if ne else (x == y)
+                    eq2 = (not (y != x)) if ne else (y == x)
+                    if not (eq and eq2):
+                        return f"{K}[{ck}] filled with {data[:n]}: {what_} compare unequal"
             if clause == "sound":
                 for extra in data:
                     b2 = fill_all(fill_all(make(K, ck), data[:n]), [extra])
@@ -540,12 +557,14 @@ def chk_rollback(K):
                     import numpy as _np
 
                     return _np.str_("x")
+                if mode == "hugeint":
+                    return 10**400 if d.get("x", 0.0) == d.get("x", 0.0) and d.get("x", 0.0) >= 1.0 else -(10**400)
                 return [1, 2] if mode == "type" else 1j
             return d["y"]
 
         return q
 
-    for mode in ("raise", "type", "complex", "npstr"):
+    for mode in ("raise", "type", "complex", "npstr", "hugeint"):
         for ck in ("Sum", "Average", "Deviate", "Minimize", "Maximize", "Bin", "Sparse", "Cat"):
             q = bad_q(mode)
             child = {
@@ -581,6 +600,34 @@ def chk_rollback(K):
                     except Exception:
                         if js(h) != before:
                             return f"{K}[{ck}] mode={mode}: a failing fill at x={x} weight={wbad} changed the aggregator: {before} -> {js(h)}"
+    # the container's own quantity fails (also for the fan-out classes Fraction and Stack: inside the guarantee)
+    own = {
+        "Bin": lambda q: hg.Bin(2, 0.0, 1.0, q, hg.Sum(qx)),
+        "SparselyBin": lambda q: hg.SparselyBin(0.5, q, hg.Sum(qx)),
+        "CentrallyBin": lambda q: hg.CentrallyBin([0.0, 1.0], q, hg.Sum(qx)),
+        "IrregularlyBin": lambda q: hg.IrregularlyBin([0.0, 1.0], q, hg.Sum(qx)),
+        "Stack": lambda q: hg.Stack([0.0, 1.0], q, hg.Sum(qx)),
+        "Fraction": lambda q: hg.Fraction(q, hg.Sum(qx)),
+        "Select": lambda q: hg.Select(q, hg.Sum(qx)),
+        "Categorize": lambda q: hg.Categorize(lambda d: q(d) if d.get("bad") else d["c"], hg.Sum(qx)),
+        "Bag": lambda q: hg.Bag(q, "N"),
+    }.get(K)
+    if own is not None:
+        for mode in ("raise", "type", "complex", "npstr", "hugeint"):
+            if K == "Categorize" and mode == "npstr":
+                continue  # a numpy string is a legitimate category
+            for prefix in ([], good):
+                h = own(bad_q(mode))
+                fill_all(h, prefix, 1.0)
+                for x in XS[:8]:
+                    before = js(h)
+                    d = datum(x, c="zz")
+                    d["bad"] = True
+                    try:
+                        h.fill(d, 0.5)
+                    except Exception:
+                        if js(h) != before:
+                            return f"{K} mode={mode}: its own quantity failed at x={x} and the aggregator changed: {before} -> {js(h)}"
     return None
 
 
@@ -1854,4 +1901,81 @@ def chk_stack_nan_thresholds():
                     return f"Stack with {nx} {'+=' if inplace else '+'} Stack with {ny}: rejected ({raised}) although the thresholds agree"
                 if not compatible and raised is None:
                     return f"Stack with {nx} {'+=' if inplace else '+'} Stack with {ny}: merged silently although the thresholds differ"
+    return None
+
+
+def chk_eq_cross_class():
+    """== across classes: aggregators of two different classes built from the same child kind and filled with the same data
+    are never equal, in either operand order, and != is the negation (the proved `different-type-unequal` clause takes an
+    abstract foreign operand and cannot follow code that goes on to read that operand's fields)"""
+    data = [datum(0.5, c="a"), datum(1.5, c="b")]
+    for n in (0, 2):
+        insts = []
+        for K in CLASSES:
+            for ck in child_kinds(K)[:2]:
+                try:
+                    insts.append((K, ck, fill_all(make(K, ck), data[:n])))
+                except Exception:
+                    continue
+        # structural twins: different classes made of the very same parts
+        for cname, c in (("Count", lambda: hg.Count()), ("Sum", lambda: hg.Sum(qx))):
+            twins = [
+                ("Label", lambda: hg.Label(a=c(), b=c())),
+                ("UntypedLabel", lambda: hg.UntypedLabel(a=c(), b=c())),
+                ("Index", lambda: hg.Index(c(), c())),
+                ("Branch", lambda: hg.Branch(c(), c())),
+                ("IrregularlyBin", lambda: hg.IrregularlyBin([0.0, 1.0], qx, c())),
+                ("Stack", lambda: hg.Stack([0.0, 1.0], qx, c())),
+                ("CentrallyBin", lambda: hg.CentrallyBin([0.0, 1.0], qx, c())),
+                ("Select", lambda: hg.Select(qx, c())),
+                ("Fraction", lambda: hg.Fraction(qx, c())),
+                ("Minimize", lambda: hg.Minimize(qx)),
+                ("Maximize", lambda: hg.Maximize(qx)),
+                ("Average", lambda: hg.Average(qx)),
+                ("Deviate", lambda: hg.Deviate(qx)),
+                ("Sum", lambda: hg.Sum(qx)),
+            ]
+            for K, mk in twins:
+                insts.append((K, "twin parts " + cname, fill_all(mk(), data[:n])))
+        for K1, c1, a in insts:
+            for K2, c2, b in insts:
+                if K1 == K2:
+                    continue
+                try:
+                    eq, ne = (a == b), (a != b)
+                except Exception as e:
+                    return f"{K1}[{c1}] == {K2}[{c2}] raised {e!r}"
+                if eq or not ne:
+                    return f"{K1}[{c1}] == {K2}[{c2}] (both filled with {n} data) gives == {eq}, != {ne}: aggregators of different classes must be unequal"
+    return None
+
+
+def chk_json_duplicate_edges():
+    """C04 / C15 on binnings with repeated cut values (outside the wf `strictly increasing` of the proved contracts): the
+    constructors keep repeated thresholds, toJson writes them, and the reload must reproduce the document bin for bin -
+    nothing is merged or dropped"""
+    data = [datum(0.5), datum(1.0), datum(1.5), datum(3.0), datum(NAN)]
+    for name, mk in (
+        ("IrregularlyBin([1, 1, 3])", lambda: hg.IrregularlyBin([1.0, 1.0, 3.0], qx, hg.Count())),
+        ("IrregularlyBin([1, 1, 3]) of Sum", lambda: hg.IrregularlyBin([1.0, 1.0, 3.0], qx, hg.Sum(qx))),
+        ("Stack([1, 1, 3])", lambda: hg.Stack([1.0, 1.0, 3.0], qx, hg.Count())),
+        ("Stack([3, 1, 1])", lambda: hg.Stack([3.0, 1.0, 1.0], qx, hg.Sum(qx))),
+    ):
+        h = fill_all(mk(), data)
+        doc = h.toJson()
+        try:
+            text = json.dumps(doc, allow_nan=False)
+            r = hg.Factory.fromJson(json.loads(text))
+        except Exception as e:
+            return f"{name}: its own document is not reloaded: {e!r}"
+        if r.toJson() != doc:
+            return f"{name}: the reload serialises differently: {json.dumps(doc['data'])[:200]} -> {json.dumps(r.toJson()['data'])[:200]}"
+        if len(r.bins) != len(h.bins):
+            return f"{name}: the reload has {len(r.bins)} bins, the original {len(h.bins)}"
+        try:
+            both = h + r
+        except Exception as e:
+            return f"{name}: original + reload raised {e!r}"
+        if not approx_eq(both.toJson(), (h * 2.0).toJson()):
+            return f"{name}: original + reload differs from original * 2"
     return None
